@@ -2,13 +2,17 @@ import Driver.Proto
 import Uft.Model.Trunc
 import Uft.Model.InfoFile
 import Uft.Model.TaskTxt
-/- C12 driver.  <fixed> is 0 (code as found) or 1 (with the proposed fixes).
+/- C12 driver.  <fixed> is 0 (code as found) or 1 (with the proposed fixes F7 … F17, S2 … S4).
+   [<nl>] is optional, 0 or 1: with proposed_fixes/C12-F18{i,t,m,s,c}.diff (a last line without its
+   newline is an incomplete record and ends the file); left out = 0 = the code without them.
    dat  <fixed> <specs|-> <hex>          -> n=<k> st=<status> ust=<hex> | time,typ,more,depth,addr,payload,partl,cok,craw ; …
         specs: <addrhex>:<idx>.<s|c|t|o>.<size>,…/<addrhex>:…
-   info <fixed> <hex>                    -> ok mask=… k=<hex> … | err <what> | oob <where>
-   task <fixed> <tid,tid|-> <hex>        -> <ok|err|oob> open=<ok|einval|enodata> | items
-   map  <fixed> <hex>                    -> ok kb=<n> | start end prot path buildid ; …
-   sym  <fixed> <modname hex> <hex>      -> ok use=<0|1> | addr size type name ; …
+   info <fixed> [<nl>] <hex>             -> ok mask=… k=<hex> … | err <what> | oob <where>
+   task <fixed> [<nl>] <tid,tid|-> <hex> -> <ok|err|oob> open=<ok|einval|enodata> chrome=… tf0=<ok|oob> | items
+   map  <fixed> [<nl>] <hex>             -> ok kb=<n> | start end prot path buildid ; …
+   sym  <fixed> [<nl>] <modname hex> <hex> -> ok use=<0|1> | addr size type name ; …
+   whole <info|text> <hex>               -> <hex>: the file cut at its last whole record
+                                            (`InfoFile.infoWhole` / `TextScan.wholeLines`)
 -/
 namespace Driver.C12
 open Uft
@@ -60,8 +64,8 @@ def dat (fixed : Bool) (ctx : Trunc.Ctx) (bs : List UInt8) : String :=
 
 def showInts (l : List Int) : String := if l.isEmpty then "-" else ",".intercalate (l.map toString)
 
-def info (fixed : Bool) (bs : List UInt8) : String :=
-  match InfoFile.parseInfo fixed bs with
+def info (fixed nl : Bool) (bs : List UInt8) : String :=
+  match InfoFile.parseInfo fixed nl bs with
   | .ok (h, i) =>
     let fs := i.fields.reverse.map fun (k, v) => s!"{us k}={hx v}"
     s!"ok version={h.version} feat={h.feat} mask={h.infoMask} maxstack={h.maxStack} " ++
@@ -85,8 +89,8 @@ def parseTids (s : String) : Option (List Int) :=
     | some l, some v => some (v :: l)
     | _, _ => none) (some [])
 
-def task (fixed : Bool) (tids : List Int) (bs : List UInt8) : String :=
-  let r := TaskTxt.parseTaskTxt fixed bs
+def task (fixed nl : Bool) (tids : List Int) (bs : List UInt8) : String :=
+  let r := TaskTxt.parseTaskTxt fixed nl bs
   let o := showOpen (TaskTxt.openOutcome r tids)
   match r with
   | .ok items =>
@@ -94,25 +98,49 @@ def task (fixed : Bool) (tids : List Int) (bs : List UInt8) : String :=
       | .ok l => s!"chrome={showInts l}"
       | .err _ => "chrome=err"
       | .oob _ => "chrome=oob"
-    s!"ok open={o} {ch} | " ++ " ; ".intercalate (items.map showItem)
+    -- F19: the `--task` views / `-f task` field of the code without C12-F19.diff (with it: always ok)
+    let tf := match TaskTxt.taskFields false items tids with
+      | .ok _ => "tf0=ok"
+      | _ => "tf0=oob"
+    s!"ok open={o} {ch} {tf} | " ++ " ; ".intercalate (items.map showItem)
   | .err e => s!"err open={o} | {us e}"
   | .oob t => s!"oob open={o} | {us t}"
 
-def map (fixed : Bool) (bs : List UInt8) : String :=
-  match TaskTxt.parseMap fixed bs with
+def map (fixed nl : Bool) (bs : List UInt8) : String :=
+  match TaskTxt.parseMap fixed nl bs with
   | .ok m =>
     s!"ok kb={m.kernelBase} | " ++ " ; ".intercalate (m.maps.reverse.map fun e =>
       s!"{e.start} {e.stop} {hx e.prot} {hx e.path} {hx e.buildId}")
   | .err e => "err " ++ us e
   | .oob t => "oob " ++ us t
 
-def sym (fixed : Bool) (modname bs : List UInt8) : String :=
-  match TaskTxt.parseSym fixed modname bs with
+def sym (fixed nl : Bool) (modname bs : List UInt8) : String :=
+  match TaskTxt.parseSym fixed nl modname bs with
   | .ok f =>
     s!"ok use={b01 f.useFile} names={b01 (TaskTxt.replayNamesOk fixed f.lines)} | " ++ " ; ".intercalate (f.lines.map fun l =>
       s!"{l.addr} {l.size} {l.type.toNat} {hx l.name}")
   | .err e => "err " ++ us e
   | .oob t => "oob " ++ us t
+
+def infoOp (f n h : String) : String :=
+  match parseHexBytes h with
+  | some bs => info (f == "1") (n == "1") bs
+  | none => "bad-op"
+
+def taskOp (f n t h : String) : String :=
+  match parseTids t, parseHexBytes h with
+  | some tids, some bs => task (f == "1") (n == "1") tids bs
+  | _, _ => "bad-op"
+
+def mapOp (f n h : String) : String :=
+  match parseHexBytes h with
+  | some bs => map (f == "1") (n == "1") bs
+  | none => "bad-op"
+
+def symOp (f n m h : String) : String :=
+  match parseHexBytes m, parseHexBytes h with
+  | some mn, some bs => sym (f == "1") (n == "1") mn bs
+  | _, _ => "bad-op"
 
 def handle (ws : List String) : String :=
   match ws with
@@ -120,22 +148,18 @@ def handle (ws : List String) : String :=
     match parseSpecs sp, parseHexBytes h with
     | some tbl, some bs => dat (f == "1") (mkCtx tbl) bs
     | _, _ => "bad-op"
-  | ["info", f, h] =>
+  | ["info", f, h] => infoOp f "0" h
+  | ["info", f, n, h] => infoOp f n h
+  | ["task", f, t, h] => taskOp f "0" t h
+  | ["task", f, n, t, h] => taskOp f n t h
+  | ["map", f, h] => mapOp f "0" h
+  | ["map", f, n, h] => mapOp f n h
+  | ["sym", f, m, h] => symOp f "0" m h
+  | ["sym", f, n, m, h] => symOp f n m h
+  | ["whole", k, h] =>
     match parseHexBytes h with
-    | some bs => info (f == "1") bs
+    | some bs => hx (if k == "info" then InfoFile.infoWhole bs else TextScan.wholeLines bs)
     | none => "bad-op"
-  | ["task", f, t, h] =>
-    match parseTids t, parseHexBytes h with
-    | some tids, some bs => task (f == "1") tids bs
-    | _, _ => "bad-op"
-  | ["map", f, h] =>
-    match parseHexBytes h with
-    | some bs => map (f == "1") bs
-    | none => "bad-op"
-  | ["sym", f, m, h] =>
-    match parseHexBytes m, parseHexBytes h with
-    | some mn, some bs => sym (f == "1") mn bs
-    | _, _ => "bad-op"
   | _ => "bad-op"
 
 def model : Model := { σ := Unit, init := (), step := fun _ ws => ((), handle ws) }
